@@ -65,6 +65,7 @@ def run(spec, ids):
         sh('git checkout -- .', cwd='/repo')
         rc, out = sh('git status --porcelain', cwd='/repo'); assert out.strip() == '', out
         sh('/verif/tools/build_harness.sh')   # the binary must not outlive the change it was built from
+        sh('/verif/build/bin/extract -repo /repo -out /verif/lean/OrasModel/Gen -harness /verif/go/harness')   # nor the generated tables
     meta = json.load(open(f'{dst}/meta.json'))
     meta.setdefault('check_results', {}).update(results)
     meta['caught_by'] = sorted({k.split(':')[0] for k, v in meta['check_results'].items() if v['exit'] == 1 and any(l.startswith('VIOLATION') for l in v['lines'])})
